@@ -1182,6 +1182,63 @@ pub fn big_piece_run(dir: &PathBuf) -> Option<(&'static str, String)> {
     s.final_check(&mut w, &mut mon, false)
 }
 
+/// Subprocess body (`rdv --probe fsfault`): the process may not write files longer than 20 000 bytes
+/// (RLIMIT_FSIZE, SIGXFSZ ignored), so storing a 40 000-byte piece fails part-way (as on a full
+/// disk). One honest seeder; 60 fair events; after each the storage invariants must hold: a piece
+/// that could not be stored completely is not owned, announced or left behind as a piece file.
+/// Exit 0: held; 3: violated (class and text on stderr).
+pub fn fsfault_main() -> i32 {
+    unsafe {
+        libc::signal(libc::SIGXFSZ, libc::SIG_IGN);
+        let lim = libc::rlimit { rlim_cur: 20_000, rlim_max: 20_000 };
+        if libc::setrlimit(libc::RLIMIT_FSIZE, &lim) != 0 {
+            eprintln!("setrlimit failed");
+            return 2;
+        }
+    }
+    core::set_quiet_panics(true);
+    let dir = core::private_cwd("c01", "fsfault");
+    let base = Swarm { label: "", piece_len: 5, files: vec![("f", 13)], single: true, owners: vec![], may_close: vec![], by_have: vec![], with_choke: false, with_interest: false, with_segmentation: false, ticks: 0, tie_breaks: false, races: false, same_addr: vec![], tracker_first: None, tracker_later: None, gated: false, focus: Focus::Storage, present_id_of: vec![], inert: vec![], refuse_after_close: vec![] };
+    let s = Swarm { label: "fsfault-40000+100-1seeder", piece_len: 40_000, files: vec![("f", 40_100)], single: true, owners: vec![own(2, &[0, 1])], may_close: vec![false], by_have: vec![false], ..base };
+    let (mut w, mut mon) = s.build(&dir);
+    let mut failed_writes = 0;
+    for _ in 0..60 {
+        let next = s.peer_events(&w, &mon, 0, true).into_iter().next().unwrap_or_else(|| "tick".to_string());
+        s.apply(&mut w, &mon, &next, &[], false);
+        if let Some((class, why)) = s.check(&w, &mut mon, Some(&next)) {
+            eprintln!("{} after a piece-file write failed part-way: {}", class, why);
+            return 3;
+        }
+        if let Some(p) = w.panics.first() {
+            eprintln!("task-panicked {}", p);
+            return 3;
+        }
+        // every *.piece file in the download directory must hash to its name
+        if let Ok(rd) = std::fs::read_dir(&w.dir) {
+            for e in rd.flatten() {
+                let name = e.file_name().to_string_lossy().to_string();
+                if let Some(hex) = name.strip_suffix(".piece") {
+                    let data = std::fs::read(e.path()).unwrap_or_default();
+                    if core::hex(&core::sha1(&data)).to_uppercase() != hex.to_uppercase() {
+                        eprintln!("stored-piece-file-does-not-hash-to-its-name {} holds {} bytes that hash to something else (a write failed part-way)", name, data.len());
+                        return 3;
+                    }
+                }
+            }
+        }
+        if mon.p[0].closes > 0 || !s.live(&w, 0) {
+            failed_writes += 1;
+        }
+    }
+    let owned0 = w.snap().map(|s| s.statuses[0] == Status::Have).unwrap_or(false);
+    if owned0 {
+        eprintln!("vacuous: the 40 000-byte piece was stored despite the 20 000-byte limit");
+        return 2;
+    }
+    let _ = failed_writes;
+    0
+}
+
 fn unseamed_part(ctx: &Ctx) -> (u64, Vec<Value>) {
     let dir = core::private_cwd("c02", "unseamed");
     core::set_quiet_panics(true);
